@@ -323,6 +323,73 @@ fn barrier_run(e: &'static Engine, workers: usize, kinds: &'static [char], n: us
     e.note("released");
 }
 
+/// Barrier(2), two generations: a coroutine party of generation 0 is cancelled in the instant the leader arrives, so that
+/// its wait ends by cancellation *and* was notified: it hands the notification on, to whoever waits on the condvar by then -
+/// the main thread, already waiting for generation 1 (a spurious wake-up there). The second party of generation 1
+/// (`late_kind`) arrives only when the cancelled party has completely ended.
+fn barrier_cancel(e: &'static Engine, workers: usize, late_kind: char) {
+    rt_init(workers);
+    let b = Arc::new(Barrier::new(2));
+    static ARRIVED1: AtomicU32 = AtomicU32::new(0);
+    static LEADERS1: AtomicU32 = AtomicU32::new(0);
+    e.begin();
+    struct FireOnDrop(Arc<may::sync::SyncFlag>);
+    impl Drop for FireOnDrop {
+        fn drop(&mut self) {
+            self.0.fire();
+        }
+    }
+    let go = Arc::new(may::sync::SyncFlag::new());
+    let b1 = b.clone();
+    let g1 = go.clone();
+    let p1 = go!(move || {
+        let _g = FireOnDrop(g1);
+        b1.wait();
+    });
+    let b2 = b.clone();
+    let main_passed = Arc::new(may::sync::SyncFlag::new());
+    let mp = main_passed.clone();
+    let late = spawn_part(e, late_kind, move || {
+        // generation 0 belongs to P1 and the main thread
+        go.wait();
+        mp.wait();
+        ARRIVED1.fetch_add(1, Ordering::SeqCst);
+        if b2.wait().is_leader() {
+            LEADERS1.fetch_add(1, Ordering::SeqCst);
+        }
+    });
+    // P1 has arrived (it is counted) and sleeps in the barrier
+    e.quiesce();
+    unsafe { p1.coroutine().cancel() };
+    // generation 0: the main thread is the last arrival
+    b.wait();
+    main_passed.fire();
+    // generation 1
+    ARRIVED1.fetch_add(1, Ordering::SeqCst);
+    let r = b.wait();
+    let a = ARRIVED1.load(Ordering::SeqCst);
+    if a < 2 {
+        e.fail("barrier_early", &format!("the main thread left generation 1 after only {} of 2 arrivals", a));
+    }
+    if r.is_leader() {
+        LEADERS1.fetch_add(1, Ordering::SeqCst);
+    }
+    let r1 = p1.join();
+    if let Err(p) = &r1 {
+        if p.downcast_ref::<generator::Error>().is_none() {
+            e.fail("unexpected_panic", "the cancelled party panicked with something else than Cancel");
+        }
+    }
+    if join_part(e, late).is_err() {
+        e.fail("unexpected_panic", "the late party panicked");
+    }
+    let l = LEADERS1.load(Ordering::SeqCst);
+    if l != 1 {
+        e.fail("barrier_leader", &format!("generation 1 had {} leaders", l));
+    }
+    e.note(&format!("p1={}", if r1.is_ok() { "ok" } else { "cancel" }));
+}
+
 fn wg_run(e: &'static Engine, workers: usize, kinds: &'static [char]) {
     if kinds.contains(&'C') {
         rt_init(workers);
@@ -393,6 +460,10 @@ pub fn build(quick: bool) -> Vec<Scenario> {
         v.push(Scenario::new("C11", "condvar_cancel_relock", format!("condvar.cancel_during_relock.w{}", w), Arc::new(move |e| cv_cancel_during_relock(e, w))).vt_horizon(50_000_000));
     }
     // barrier and wait group
+    for w in [1usize, 2] {
+        v.push(Scenario::new("C11", "barrier", format!("barrier.cancelled_party.late_T.w{}", w), Arc::new(move |e| barrier_cancel(e, w, 'T'))));
+        v.push(Scenario::new("C11", "barrier", format!("barrier.cancelled_party.late_C.w{}", w), Arc::new(move |e| barrier_cancel(e, w, 'C'))));
+    }
     v.push(Scenario::new("C11", "barrier", "barrier.T.n2.g2", Arc::new(|e| barrier_run(e, 1, &['T'], 2, 2))).fine());
     v.push(Scenario::new("C11", "barrier", "barrier.T_T.n3.g1", Arc::new(|e| barrier_run(e, 1, &['T', 'T'], 3, 1))).fine());
     v.push(Scenario::new("C11", "wait_group", "waitgroup.T_T", Arc::new(|e| wg_run(e, 1, &['T', 'T']))).fine());
